@@ -29,6 +29,7 @@ class Num(Node): _fields = ('n',)
 class Str(Node): _fields = ('s',)
 class Null(Node): _fields = ()
 class Bin(Node): _fields = ('op', 'a', 'b')          # + - *
+class UMinus(Node): _fields = ('e',)                 # unary minus
 class ListE(Node): _fields = ('items',)
 class RecE(Node): _fields = ('fields',)              # [(name, expr)]
 class Field(Node): _fields = ('e', 'name')
@@ -118,6 +119,8 @@ def rx(e):
     return 'null'
   if isinstance(e, Bin):
     return '(%s %s %s)' % (rx(e.a), e.op, rx(e.b))
+  if isinstance(e, UMinus):
+    return '-%s' % rx(e.e) if isinstance(e.e, (Bin, Var)) else '-(%s)' % rx(e.e)
   if isinstance(e, ListE):
     return '[' + ', '.join(rx(x) for x in e.items) + ']'
   if isinstance(e, RecE):
